@@ -12,7 +12,7 @@
    [pinned] is the pre-fix code (380c75d), kept only for the two historical refutations. *)
 From Coq Require Import List ZArith.
 Import ListNotations.
-From TskVerif Require Import Base.Common C02.Fl C02.Model C02.Spec C02.Sound C02.SweepComplete C02.Refuted C02.Top C02.BuildIndex C02.Reach C02.ErrClass C02.RowCode C02.Wrapper C02.BridgeC13 C02.Final.
+From TskVerif Require Import Base.Common C02.Fl C02.Model C02.Spec C02.Sound C02.SweepComplete C02.Refuted C02.Top C02.BuildIndex C02.Reach C02.ErrClass C02.RowCode C02.Wrapper C02.BridgeC13 C02.Final C02.Rejects.
 Open Scope Z_scope.
 
 (* (a) memory safety: whatever the cell values, the gate never indexes out of bounds — every id
@@ -209,3 +209,9 @@ Proof. exact f1_refuted. Qed.
 Theorem check_sound_seqlen_pinned_refuted :
   exists t n, WF t /\ check_integrity pinned opts_trees t = Ok n /\ ~ SeqlenOK t.
 Proof. exact f14_refuted. Qed.
+
+(* The property as a rejection statement: a well-formed collection violating ANY clause of ValidTS
+   gets a library error — never a tree count, never OOB / Fuel (corollary of check_total and
+   check_sound; no size bound needed in this direction). *)
+Theorem check_rejects_invalid : forall t, WF t -> ~ ValidTS t -> exists c, check t = Err c.
+Proof. exact check_rejects_invalid_proof. Qed.
